@@ -10,6 +10,19 @@ from mxmc.session import observe, TICK
 EVAL_OPS = {"q"}
 
 
+def _memoise_lambda_extraction():
+    """Half of the cost of building a model is asttokens parsing the same lambda sources again and again.
+    `extract_lambda_from_source` is a pure function str -> str; the drivers built on this module (not C04,
+    C15, C20, whose subject is formula capture) run it through a cache.  Exceptions are not cached."""
+    import functools
+    from modelx.core import formula as F
+    if not hasattr(F.extract_lambda_from_source, "cache_info"):
+        F.extract_lambda_from_source = functools.lru_cache(maxsize=None)(F.extract_lambda_from_source)
+
+
+_memoise_lambda_extraction()
+
+
 def is_edit(op):
     return op["op"] not in EVAL_OPS
 
@@ -110,6 +123,9 @@ def _apply_impl(m, op):
     if k == "copy_cells":
         owner.cells[op["c"]].copy(resolve(m, op["to"]), op["new"])
         return None
+    if k == "sort_cells":
+        owner.sort_cells()
+        return None
     if k == "new_space":
         bases = [resolve(m, b) for b in op.get("bases", [])]
         owner.new_space(op["n"], bases=bases or None, formula=op.get("formula"))
@@ -190,7 +206,7 @@ class Inapplicable(Exception):
 def apply_ref(rm, op):
     """Apply the spec-level effect of an *edit* op to RefModel rm (in place)."""
     k = op["op"]
-    if k in ("q", "recalc", "clear", "clear_at", "del_value", "del_item", "clear_items"):
+    if k in ("q", "recalc", "clear", "clear_at", "del_value", "del_item", "clear_items", "sort_cells"):
         if k in ("clear_at", "del_value"):
             # clearing an input element removes the input
             sp = rm.space(op["sp"])
@@ -437,6 +453,8 @@ def op_to_python(op):
         return "%s.%s.rename(%r)" % (sp, op["c"], op["new"])
     if k == "copy_cells":
         return "%s.%s.copy(%s, %r)" % (sp, op["c"], _pypath(op["to"]), op["new"])
+    if k == "sort_cells":
+        return "%s.sort_cells()" % sp
     if k == "new_space":
         return "%s.new_space(%r, bases=[%s], formula=%r)" % (
             sp, op["n"], ", ".join(_pypath(b) for b in op.get("bases", [])), op.get("formula"))
